@@ -337,6 +337,6 @@ impl Client {
 
     /// The padding scheme a session created now would be given.
     pub fn verif_padding(&self) -> Arc<PaddingFactory> {
-        self.padding.clone()
+        PaddingFactory::effective(&self.padding)
     }
 }
